@@ -7,7 +7,7 @@
    exactly the source pixel at the mapped position (C16_nearest_translate_exact).  For other transforms the
    source pixel is tied by the f64 oracle (DESIGN.md, C16 partial). *)
 From Coq Require Import ZArith QArith Qabs List.
-From TS Require Import Base.F32 Model.WideBackends Model.Sampler Model.Nearest Proofs.SamplerProofs Proofs.SamplerIdeal Proofs.NearestCopy.
+From TS Require Import Base.F32 Model.WideBackends Model.Sampler Model.Nearest Proofs.SamplerProofs Proofs.SamplerIdeal Proofs.NearestCopy Proofs.NearestRepeat.
 Import ListNotations.
 
 Theorem C16_gather_ix_in_bounds :
@@ -65,6 +65,16 @@ Theorem C16_nearest_translate_pad :
    nearest_ix b 0 w h (F32.of_Z tx) (F32.of_Z ty) dx lane dy =
      Z.max 0 (Z.min (dy - ty) (h - 1)) * w + Z.max 0 (Z.min (dx + lane - tx) (w - 1)))%Z.
 Proof. exact nearest_translate_pad. Qed.
+(* "repeat wraps": under SpreadMode::Repeat every destination pixel reads source pixel ((c - tx) mod w, (r - ty) mod h);
+   the rounded reciprocal 1/w of the tiling stage cannot move a pixel centre across a tile boundary below 10^6 *)
+Theorem C16_nearest_translate_repeat :
+  forall b w h tx ty dx lane dy,
+  (1 <= w <= 16384 -> 1 <= h <= 16384 -> Z.abs tx < 1000000 -> Z.abs ty < 1000000 ->
+   0 <= dx < 1000000 -> 0 <= lane <= 7 -> 0 <= dy < 1000000 ->
+   nearest_ix b 2 w h (F32.of_Z tx) (F32.of_Z ty) dx lane dy = ((dy - ty) mod h) * w + ((dx + lane - tx) mod w))%Z.
+Proof. exact nearest_translate_repeat. Qed.
+Example C16_nearest_repeat_example : nearest_ix SSE2 2 5 3 (F32.of_Z 7) (F32.of_Z 1) 40 2 40 = 0%Z.
+Proof. vm_compute. reflexivity. Qed.
 Example C16_nearest_pad_example : nearest_ix SSE2 0 5 3 (F32.of_Z 7) (F32.of_Z 1) 0 2 40 = 10%Z.
 Proof. vm_compute. reflexivity. Qed.
 (* non-vacuity: the hypotheses hold for w=5, h=3, tx=7, ty=1, dx=8, lane=2, dy=2, and the model evaluates to (2-1)*5 + 3 *)
